@@ -63,6 +63,13 @@ def run_agree(c):
         out["stats"]["hybrid_vs_fourier"] = float(d)
         if d > 6e-3:
             out["oracle"].append("hybrid vs Fourier: %.3g of the peak (bound 6e-3)" % d)
+        # the same with more components in real space (the bound holds for every num_pixel_render)
+        for m in c.get("ms", [8]):
+            h = REND["hybrid"]((N, N), jnp.array(psf.astype(np.float32)), num_pixel_render=m)
+            d = np.abs(np.asarray(h.render_source(p, "sersic"), np.float64) - ims["fourier"]).max() / peak
+            out["stats"]["hybrid%d_vs_fourier" % m] = float(d)
+            if d > 6e-3:
+                out["oracle"].append("hybrid (num_pixel_render=%d) vs Fourier: %.3g of the peak (bound 6e-3)" % (m, d))
     return out
 
 
